@@ -90,6 +90,9 @@ def build_harness(tags="sqlite,verif", race=False, extra_overlay=None, name="har
     return out
 
 
+INCOMPLETE = []
+
+
 def run_surviving(binary, family, inp, timeout=3600, max_crashes=12, **kw):
     """runs a family whose harness writes {"start": kind, "i": n} before every item and honours inp["skip"]; when a shard dies, the items it
     died on are recorded and the run resumes without them. Returns (records, crashers) with crashers = [{"kind", "i", "log"}]"""
@@ -112,13 +115,17 @@ def run_surviving(binary, family, inp, timeout=3600, max_crashes=12, **kw):
             return recs, crashers
         inflight = sorted(started - finished)
         logtail = "\n".join(c[2] for c in CRASHED)
-        if not inflight or len(crashers) + len(inflight) > max_crashes:
-            raise Inconclusive("harness family %s died (%d items in flight, %d earlier crashes):\n%s" % (family, len(inflight), len(crashers), logtail[-2500:]))
+        if not inflight:
+            raise Inconclusive("harness family %s died with no item in flight (%d earlier crashes):\n%s" % (family, len(crashers), logtail[-2500:]))
         m = re.search(r"((?:panic|fatal error|runtime: goroutine stack exceeds)[^\n]*(?:\n[^\n]*){0,12})", logtail)
         if not m:
             raise Inconclusive("harness family %s failed without a Go runtime crash report:\n%s" % (family, logtail[-2500:]))
         for kind, i in inflight:
             crashers.append({"kind": kind, "i": i, "log": m.group(1)[:2500]})
+        if len(crashers) > max_crashes:
+            # enough: every one of them is reported; the items not reached are left out (INCOMPLETE tells the caller)
+            INCOMPLETE.append(family)
+            return recs, crashers
         for kind, i in list(finished) + inflight:
             skip.setdefault(kind, set()).add(i)
         CRASHED.clear()
@@ -155,7 +162,11 @@ def run_harness(binary, family, inp, shards=None, seed_=None, timeout=3600, extr
             tail = open(outp + ".log").read()[-3000:]
             raise Inconclusive("harness family %s shard failed rc=%d:\n%s" % (family, rc, tail))
         if rc != 0:
-            CRASHED.append((outp, rc, open(outp + ".log", errors="replace").read()[-6000:]))
+            full = open(outp + ".log", errors="replace").read()
+            # the Go runtime's crash report starts the (possibly very long) goroutine dump: keep its head and the tail of the log
+            m = re.search(r"(?m)^(?:runtime: goroutine stack exceeds|fatal error:|panic:)", full)
+            head = full[m.start():m.start() + 1500] + "\n[...]\n" if m else ""
+            CRASHED.append((outp, rc, head + full[-6000:]))
         if os.path.exists(outp):
             for line in open(outp):
                 line = line.strip()
